@@ -306,6 +306,31 @@ let handle (i : string list) (o : string list) =
           if not (p_C03_writer ct guarded cs) then pfail := Some (Printf.sprintf "P_C03_writer:%s.%s" toi n)
         | None -> ()
       end) keys;
+    if prop = "c01" then begin
+      (* an object is refused when it is added iff the wire format / the FEC scheme cannot carry it
+         (model of FileDesc::new: Model/BlockEnc.filedesc_accepts) *)
+      let osecs = List.filter (fun sct -> sct <> [] && List.hd sct = "O") secs in
+      let next_toi = ref 1 in
+      List.iteri (fun idx _ ->
+        let tlen = (match List.assoc_opt idx !refused with
+            | Some tl -> Some (tl, true)
+            | None ->
+              let r = (match Hashtbl.find_opt gtbl (n_of_int !next_toi) with
+                  | Some (_, transfer, _) -> Some (n_of_int (List.length transfer), false)
+                  | None -> None) in
+              incr next_toi; r) in
+        match tlen with
+        | None -> ()
+        | Some (tl, was_refused) ->
+          let fec = (match get "fec" "nocode" with
+              | "rs28" -> RS28 | "rs28us" -> RS28US | "raptorq" -> RaptorQ | "raptor" -> Raptor | _ -> NoCode) in
+          let cfgm = { c_fec = fec; c_e = n_of_int (int_of_string (get "e" "16")); c_b = n_of_int (int_of_string (get "b" "4"));
+                       c_parity = n_of_int (int_of_string (get "par" "0")); c_window = O; c_closable = false;
+                       c_tlen = tl; c_debug = true } in
+          let accepts = filedesc_accepts cfgm in
+          if accepts = was_refused && !diff = None then
+            diff := Some (Printf.sprintf "object%d:add_object:model-%s" idx (if accepts then "accepts" else "refuses"))) osecs
+    end;
     if prop = "c01" || prop = "c02" || prop = "c16" then begin
       let known = ref None in
       Hashtbl.iter (fun toi (tc, given) ->
@@ -324,7 +349,15 @@ let handle (i : string list) (o : string list) =
             if not (p_C01_object given content (n_of_int copies) ws) then begin
               (* recorded finding D20: no-cache objects are not remembered as completed *)
               let nocache = (fst given.m_cache = N0) in
-              if once && nocache && tc >= 2 && p_C01_object given content (n_of_int tc) ws then known := Some "D20"
+              let ncomplete = List.length (List.filter (fun (_, cs) -> List.mem CallComplete cs) ws) in
+              let all_exact = List.for_all (fun (m, cs) -> not (List.mem CallComplete cs) || (p_C01_object given content (n_of_int 1) [(m, cs)])) ws in
+              (* D20: a no-cache object is not remembered as completed: extra copies, and trailing packets reopen a writer *)
+              if nocache && ncomplete >= 1 && all_exact then known := Some "D20"
+              (* D35: in being-transferred mode an FDT instance that does not list a completed object makes the
+                 receiver forget it (gc_object_completed), so a later transfer is delivered again despite receive-once *)
+              else if once && tc >= 2 && get "mode" "full" = "bt" && ncomplete >= 1 && ncomplete <= tc && all_exact
+                      && List.for_all (fun (_, cs) -> not (List.mem CallError cs || List.mem CallInterrupted cs)) ws
+              then (if !known = None then known := Some "D35")
               else pfail := Some (Printf.sprintf "P_C01_object:toi=%s" toi_s)
             end
           end else begin
